@@ -657,6 +657,20 @@ def curated_special():
         ('rule', 'start', None, ('seq', [('call', 'WB', [('bstr', b'ab')]), ('call', 'WP', [BT]), ('call', 'WP', [('alt', [('byte', 0x61), ('bstr', b'bb')])])])),
         ('rule', 'WB', ['p'], ('seq', [('ref', 'p'), ('py', "('val', p)")])),
         ('rule', 'WP', ['p'], ('seq', [('ref', 'p'), ('opt', ('ref', 'p'))]))]))
+    # the same text as a case-sensitive and as a case-insensitive literal argument, tried at one position
+    out.append(('same-pos-case-variants-alt', [
+        ('rule', 'start', None, ('alt', [('call', 'W', [('str', 'ab')]), ('call', 'W', [('istr', 'ab')])])),
+        ('rule', 'W', ['p'], ('seq', [('ref', 'p'), ('opt', ('str', '!'))]))]))
+    out.append(('same-pos-case-variants-alt-rev', [
+        ('rule', 'start', None, ('alt', [('seq', [('call', 'W', [('istr', 'ab')]), ('str', '?')]), ('call', 'W', [('str', 'ab')])])),
+        ('rule', 'W', ['p'], ('seq', [('ref', 'p'), ('opt', ('str', '!'))]))]))
+    out.append(('same-pos-case-variants-expect', [
+        ('rule', 'start', None, ('alt', [('seq', [('expect', ('call', 'W', [('istr', 'ab')])), ('call', 'W', [('str', 'ab')])]), ('re', '[abAB!]*', False)])),
+        ('rule', 'W', ['p'], ('seq', [('ref', 'p'), ('opt', ('str', '!'))]))]))
+    out.append(('same-pos-case-variants-two-templates', [
+        ('rule', 'start', None, ('alt', [('seq', [('call', 'W', [('str', 'a')]), ('str', '?')]), ('call', 'V2', [('kw', 'q', ('istr', 'a'))])])),
+        ('rule', 'W', ['p'], ('seq', [('ref', 'p'), ('opt', ('str', '!'))])),
+        ('rule', 'V2', ['q'], ('plus', ('ref', 'q')))]))
     # a bytes string literal as argument is a bytes VALUE inside the template (and a parser)
     out.append(('bytes-literal-value', [
         ('rule', 'start', None, ('seq', [('call', 'WV', [('bstr', b'ab')]), ('opt', ('call', 'WV', [('kw', 'p', ('bstr', b'a'))]))])),
